@@ -236,7 +236,7 @@ def main():
         "remove_last (documented restriction)",
         "the exposed second factor of the RU flavour is accepted in any of the conventions B = R*W^T, B = R*W, R = B*W "
         "(the documentation does not fix one; the code uses the first for Z2 and the third for Zp)"]
-    nq, nt = emit("C05", quick, thorough, 4, (3000, 25000), 320, rule05, assumptions, 6, [], 1500)
+    nq, nt = emit("C05", quick, thorough, 4, (10000, 80000), 320, rule05, assumptions, 6, [], 1500)
     print("C05: %d quick sets in %d targets, %d more thorough sets in %d targets" % (len(quick), nq,
                                                                                  len(thorough) - len(quick), nt))
     # C08: the sets with representative cycles; RU Zp with identifier indexing cannot expose coefficients -> dropped
@@ -273,7 +273,7 @@ def main():
         "Z_p: the API returns supports only; coefficients are read from the exposed column of the birth cell "
         "(chain column, resp. the mirror column of the RU flavour) and its support must equal the returned cycle",
         "cycle entries are identifiers for the chain flavour; for the RU flavour identifiers == positions is imposed"]
-    nq8, nt8 = emit("C08", q8, t8, 4, (3000, 25000), 200, rule08, assumptions8, 5, ["-DPMH_CHECK_CYCLES"], 1500)
+    nq8, nt8 = emit("C08", q8, t8, 4, (8000, 60000), 200, rule08, assumptions8, 5, ["-DPMH_CHECK_CYCLES"], 1500)
     print("C08: %d quick sets in %d targets, %d more thorough sets in %d targets" % (len(q8), nq8, len(t8) - len(q8), nt8))
 
 
